@@ -700,5 +700,30 @@ func (g *gen) historyPairs() []string {
 		add("ean %s", hx(g.str(digits, 12)))
 		add("ean %s", hx(g.str(digits, 7)))
 	}
+	// rejected calls in between: V, X, R, X — a call that returns an error must leave nothing behind that changes a
+	// later result (seed w06: a cache in front of the capacity check, overrun by an input that is refused). R ranges over
+	// inputs that are too large by a little, by a lot, and over malformed ones; X is compared with its fresh-process result
+	quad := func(v, x string, rs ...string) {
+		for _, r := range rs {
+			out = append(out, v, x, r, x)
+		}
+	}
+	pd := func(s string, lvl int) string { return fmt.Sprintf("pdf %s %d", hx(s), lvl) }
+	quad(pd("first", 2), pd("THE QUICK BROWN FOX 0123456789", 2),
+		pd(g.str("ABCDEFGH", 1900), 0), pd(g.str("ABCDEFGH", 2600), 0), pd(g.str("ABCDEFGH", 3600), 1), pd(g.str(digits, 2900), 0),
+		pd(g.str(digits, 5000), 0), pd(g.str("\x80\x81", 1300), 0), pd(g.str("\x80\x81", 2100), 3), pd("x", 9))
+	q := func(s string, lvl, mode int) string { return fmt.Sprintf("qr %s %d %d", hx(s), lvl, mode) }
+	quad(q("first", 0, 0), q(g.bytes(70), 1, 3),
+		q(g.bytes(2954), 0, 3), q(g.bytes(4000), 0, 3), q(g.str(digits, 7090), 0, 1), q("12a", 0, 1), q("abc", 1, 2), q(g.bytes(1274), 3, 3))
+	quad("dm "+hx("first"), "dm "+hx(g.dmContent(1, 40)), "dm "+hx(g.dmContent(0, 1559)), "dm "+hx(g.dmContent(3, 2500)), "dm "+hx(g.dmContent(2, 5000)))
+	az := func(s string, pct, l int) string { return fmt.Sprintf("aztec %s %d %d", hx(s), pct, l) }
+	quad(az("first", 33, 0), az("Aztec, 12.5 \x80", 23, 0),
+		az(g.str("abc", 4000), 33, 0), az(g.bytes(2000), 33, 0), az(g.str("abc", 200), 33, -2), az("abc", 33, 40), az(g.bytes(2200), 0, 0))
+	quad("c128 "+hx("first"), "c128 "+hx("Ab12\x01"), "c128 "+hx(g.str("a", 81)), "c128 "+hx("\xc3\xa9"), "c128 -")
+	quad("c39 "+hx("FIRST")+" 1 0", "c39 "+hx("AB-12")+" 1 0", "c39 "+hx("ab")+" 1 0", "c39 "+hx("\xc3\xa9")+" 1 1")
+	quad("c93 "+hx("FIRST")+" 1 0", "c93 "+hx("AB-12")+" 1 0", "c93 "+hx("ab")+" 1 0", "c93 "+hx("\xc3\xa9")+" 1 1")
+	quad("ean "+hx("1234567"), "ean "+hx("7654321"), "ean "+hx("12345678"), "ean "+hx("123456"), "ean "+hx("12345a7"))
+	quad("tof "+hx("12")+" 1", "tof "+hx("3456")+" 1", "tof "+hx("123")+" 1", "tof "+hx("12a4")+" 1", "tof - 0")
+	quad("codabar "+hx("A1B"), "codabar "+hx("C23-4D"), "codabar "+hx("12"), "codabar "+hx("A1"), "codabar -")
 	return out
 }
